@@ -3,6 +3,6 @@
 # (X = C04b -> check id C04, output /verif/seeded/C04b, log /tmp/vsout-C04b.txt)
 cd /verif || exit 2
 for x in "$@"; do
-  id=${x%b}
+  id=${x%[a-z]}
   OUT_ID=$x tools/verify_seed.sh "$id" "/tmp/seed-$x" > "/tmp/vsout-$x.txt" 2>&1
 done
